@@ -187,6 +187,10 @@ def overlay_for(pkg, files, extra=None):
         rep['%s/%s/zz_verif_%s' % (REPO, PKGDIR[pkg], fn)] = '%s/%s' % (d, fn)
     if extra:
         rep.update(extra)
+    # mutation testing without touching /repo: VERIF_EXTRA_OVERLAY=<json with a Replace map>
+    xo = os.environ.get('VERIF_EXTRA_OVERLAY')
+    if xo:
+        rep.update(json.load(open(xo)).get('Replace', {}))
     return {'Replace': rep}
 
 
@@ -244,10 +248,15 @@ def read_lines_by_id(path):
 # ----------------------------------------------------------------------------------------
 # known findings, replay files, verdict
 def known_findings(pid):
-    p = V + '/known_findings.json'
-    if not os.path.exists(p):
-        return []
-    return [f for f in json.load(open(p)).get('findings', []) if f['property'] == pid]
+    fs = []
+    paths = [V + '/known_findings.json']
+    d = V + '/known_findings.d'
+    if os.path.isdir(d):
+        paths += [os.path.join(d, fn) for fn in sorted(os.listdir(d)) if fn.endswith('.json')]
+    for p in paths:
+        if os.path.exists(p):
+            fs += [f for f in json.load(open(p)).get('findings', []) if f['property'] == pid]
+    return fs
 
 
 def write_replay(ctx, tag, obj):
